@@ -572,7 +572,7 @@ Proof.
 Qed.
 
 Lemma sack_state s cum gaps now :
-  inv s -> uint32_gt (last_sacked s) cum = false ->
+  inv s -> sack_ignored s cum = false ->
   exists s1, fst (receive_sack s cum gaps now) = fst (transmit s1) /\ tpre s1 /\ pending_tx s1 = pending_tx s /\
     (sentq s1 <> [] -> t3 s1 = true \/ (flight s1 = 0 /\ Forall abrx (sentq s1) /\ head_live (sentq s1))).
 Proof.
@@ -660,7 +660,7 @@ Proof.
     pose proof (transmit_ok s0 Hp0) as (_ & _ & Epend & _). cbn zeta in Epend. cbn [pending_tx s0 with_q] in Epend.
     destruct (fst (transmit s0)) as [a b c d e f g h i j k l m n]. cbn [pending_tx] in *. subst n. exact H.
   - (* _receive_sack_chunk *)
-    destruct (uint32_gt (last_sacked s) cum) eqn:Egt.
+    destruct (sack_ignored s cum) eqn:Egt.
     { unfold receive_sack. rewrite Egt. exact Hinv. }
     destruct (sack_state s cum gaps now Hinv Egt) as (s1 & E1 & P1 & Q1 & R1). rewrite E1.
     pose proof (inv_of_transmit s1 (pending_tx s) P1 R1) as H. cbn zeta in H.
